@@ -1,10 +1,15 @@
 //! C11: editing operations keep the document sound (bounded-exhaustive, E3).
 //!
 //! Every sequence of at most N public editing calls (N = 2 quick, 3 thorough) over a fixed operation alphabet is
-//! applied to each of 8 well-formed seed documents, once as generated and once as loaded from its own saved file.
+//! applied to each of 10 well-formed seed documents (one of them, whose steps are slow, with N = 2 in both tiers), once as generated and once as loaded from its own saved file.
 //! After every call the real post-state is compared with what the property statement implies for the real
 //! pre-state (a Hoare triple per step).  All observations of a state (reachability, page tree, page content,
-//! stream decoding incl. inflate/ASCII85, usable resources) are re-implemented here and do not call the library.
+//! stream decoding incl. inflate/LZW/ASCII85 and the decode parameters of ISO 32000-1 7.4.4.3-4 (PNG predictors,
+//! DecodeParms as one dictionary or as an array parallel to the filters), usable resources) are re-implemented
+//! here and do not call the library.  How a content stream is STORED (filter chain x decode parameters) is a
+//! dimension of the start documents: "each page's decoded content is what the content edits imply" speaks about
+//! the decoded data, so every editing call has to leave the stream dictionary (Filter, DecodeParms, Length) and
+//! the stored bytes describing the same data, whatever the encoding the stream had before the call.
 #![allow(dead_code)]
 use crate::c03::{obj_from_json, obj_json};
 use crate::common::*;
@@ -208,7 +213,123 @@ fn a85_encode(data: &[u8]) -> Vec<u8> {
     out
 }
 
-/// decoded data of a stream, by the filter rules of ISO 32000-1 7.3.8.2 / 7.4 (Filter: a name or an array of zero or more names)
+/// LZW of ISO 32000-1 7.4.4.2 (codes 0-255 bytes, 256 clear table, 257 end of data, table entries from 258, codes packed
+/// high-order bit first, 9 bits wide until the table holds 511 - EarlyChange entries; wider codes are not modelled because no
+/// start document of this module holds that much LZW data and the library never writes LZW)
+fn unlzw(data: &[u8], early: i64) -> Result<Vec<u8>, String> {
+    let mut table: Vec<Vec<u8>> = vec![];
+    let mut out: Vec<u8> = vec![];
+    let mut prev: Option<Vec<u8>> = None;
+    let (mut acc, mut nbits, mut pos) = (0u32, 0u32, 0usize);
+    loop {
+        while nbits < 9 {
+            if pos >= data.len() { return Err("lzw: data ends without the end-of-data code".into()); }
+            acc = (acc << 8) | data[pos] as u32;
+            pos += 1;
+            nbits += 8;
+        }
+        let code = ((acc >> (nbits - 9)) & 0x1ff) as usize;
+        nbits -= 9;
+        acc &= (1u32 << nbits) - 1;
+        if code == 256 { table.clear(); prev = None; continue; }
+        if code == 257 { return Ok(out); }
+        let entry: Vec<u8> = if code < 256 { vec![code as u8] }
+            else if let Some(e) = table.get(code - 258) { e.clone() }
+            else if code - 258 == table.len() && prev.is_some() { let mut e = prev.clone().unwrap(); let f = e[0]; e.push(f); e }
+            else { return Err(format!("lzw: code {} is not in the table", code)); };
+        out.extend_from_slice(&entry);
+        if let Some(mut p) = prev.take() { p.push(entry[0]); table.push(p); }
+        prev = Some(entry);
+        if 258 + table.len() as i64 + early >= 512 { return Err("lzw: codes wider than 9 bits not modelled".into()); }
+    }
+}
+
+fn parm_int(d: Option<&Dictionary>, key: &[u8], default: i64) -> Result<i64, String> {
+    match d.map(|d| d.get(key)) {
+        None | Some(Err(_)) => Ok(default),
+        Some(Ok(Object::Integer(i))) => Ok(*i),
+        Some(Ok(_)) => Err(format!("decode parameter /{} is not a direct integer: not modelled", String::from_utf8_lossy(key))),
+    }
+}
+
+fn paeth(a: u8, b: u8, c: u8) -> u8 {
+    let (ia, ib, ic) = (a as i32, b as i32, c as i32);
+    let p = ia + ib - ic;
+    let (pa, pb, pc) = ((p - ia).abs(), (p - ib).abs(), (p - ic).abs());
+    if pa <= pb && pa <= pc { a } else if pb <= pc { b } else { c }
+}
+
+/// what Predictor 10..15 undoes (ISO 32000-1 7.4.4.4, PNG specification section 6): every row is one tag byte 0..4 followed by
+/// `row` bytes; Raw(x) = stored(x) + predicted(x) mod 256 from the byte `bpp` to the left (a), the byte above (b) and the byte above left (c)
+fn png_unpredict(data: &[u8], bpp: usize, row: usize) -> Result<Vec<u8>, String> {
+    if data.len() % (row + 1) != 0 { return Err(format!("predictor: {} bytes are not a whole number of rows of 1+{} bytes", data.len(), row)); }
+    let mut out: Vec<u8> = Vec::with_capacity(data.len());
+    let mut prev = vec![0u8; row];
+    for (r, ch) in data.chunks(row + 1).enumerate() {
+        let tag = ch[0];
+        if tag > 4 { return Err(format!("predictor: row {} starts with tag byte {}, PNG defines the row filter types 0..4", r, tag)); }
+        let mut cur = vec![0u8; row];
+        for i in 0..row {
+            let a = if i >= bpp { cur[i - bpp] } else { 0 };
+            let b = prev[i];
+            let c = if i >= bpp { prev[i - bpp] } else { 0 };
+            let pred = match tag { 0 => 0, 1 => a, 2 => b, 3 => ((a as u16 + b as u16) / 2) as u8, _ => paeth(a, b, c) };
+            cur[i] = ch[1 + i].wrapping_add(pred);
+        }
+        out.extend_from_slice(&cur);
+        prev = cur;
+    }
+    Ok(out)
+}
+
+/// the encoder side of png_unpredict, for building start documents: row r is stored with filter type pick(r)
+fn png_predict(data: &[u8], bpp: usize, row: usize, pick: impl Fn(usize) -> u8) -> Vec<u8> {
+    assert!(row > 0 && data.len() % row == 0, "seed construction: the data must be whole rows");
+    let mut out = vec![];
+    let mut prev = vec![0u8; row];
+    for (r, cur) in data.chunks(row).enumerate() {
+        let tag = pick(r);
+        out.push(tag);
+        for i in 0..row {
+            let a = if i >= bpp { cur[i - bpp] } else { 0 };
+            let b = prev[i];
+            let c = if i >= bpp { prev[i - bpp] } else { 0 };
+            let pred = match tag { 0 => 0, 1 => a, 2 => b, 3 => ((a as u16 + b as u16) / 2) as u8, _ => paeth(a, b, c) };
+            out.push(cur[i].wrapping_sub(pred));
+        }
+        prev = cur.to_vec();
+    }
+    out
+}
+
+/// the predictor step that follows FlateDecode / LZWDecode when the filter has decode parameters (ISO 32000-1 table 8)
+fn unpredict(data: Vec<u8>, parms: Option<&Dictionary>) -> Result<Vec<u8>, String> {
+    let predictor = parm_int(parms, b"Predictor", 1)?;
+    match predictor {
+        1 => Ok(data),
+        2 => Err("TIFF predictor 2 not modelled".into()),
+        10..=15 => {
+            let colors = parm_int(parms, b"Colors", 1)?;
+            let bits = parm_int(parms, b"BitsPerComponent", 8)?;
+            let columns = parm_int(parms, b"Columns", 1)?;
+            if !(1..=64).contains(&colors) || ![1, 2, 4, 8, 16].contains(&bits) || !(1..=(1 << 20)).contains(&columns) { return Err(format!("predictor geometry Colors {} BitsPerComponent {} Columns {} not modelled", colors, bits, columns)); }
+            let bpp = (((colors * bits + 7) / 8) as usize).max(1);
+            let row = ((colors * bits * columns + 7) / 8) as usize;
+            png_unpredict(&data, bpp, row)
+        }
+        other => Err(format!("Predictor {} is not a value of ISO 32000-1 table 10", other)),
+    }
+}
+
+/// how the stream says its data is stored (for messages)
+fn stored_as(s: &Stream) -> String {
+    format!("/Filter {} /DecodeParms {} /Length {}", s.dict.get(b"Filter").map(|o| format!("{:?}", o)).unwrap_or("absent".into()),
+        s.dict.get(b"DecodeParms").map(|o| format!("{:?}", o)).unwrap_or("absent".into()), s.content.len())
+}
+
+/// decoded data of a stream, by the filter rules of ISO 32000-1 7.3.8.2 / 7.4 (Filter: a name or an array of zero or more names;
+/// DecodeParms: absent, null, the parameter dictionary of the only filter, or an array with one dictionary or null per filter;
+/// without a filter the parameters have nothing to apply to)
 fn decode_stream(s: &Stream) -> Result<Vec<u8>, String> {
     let filters: Vec<Vec<u8>> = match s.dict.get(b"Filter") {
         Err(_) => vec![],
@@ -216,13 +337,24 @@ fn decode_stream(s: &Stream) -> Result<Vec<u8>, String> {
         Ok(Object::Array(a)) => { let mut v = vec![]; for x in a { match x { Object::Name(n) => v.push(n.clone()), _ => return Err("filter array holds a non-name".into()) } } v }
         Ok(_) => return Err("unsupported Filter value".into()),
     };
-    if let Ok(p) = s.dict.get(b"DecodeParms") {
-        if !filters.is_empty() && !matches!(p, Object::Null) { return Err("DecodeParms not modelled".into()); }
-    }
+    let parms: Vec<Option<&Dictionary>> = if filters.is_empty() { vec![] } else {
+        match s.dict.get(b"DecodeParms") {
+            Err(_) | Ok(Object::Null) => vec![None; filters.len()],
+            Ok(Object::Dictionary(d)) if filters.len() == 1 => vec![Some(d)],
+            Ok(Object::Dictionary(_)) => return Err("one DecodeParms dictionary for several filters: not modelled".into()),
+            Ok(Object::Array(a)) if a.len() == filters.len() => {
+                let mut v = vec![];
+                for x in a { match x { Object::Null => v.push(None), Object::Dictionary(d) => v.push(Some(d)), _ => return Err("DecodeParms array entry is neither a direct dictionary nor null: not modelled".into()) } }
+                v
+            }
+            Ok(_) => return Err("DecodeParms form not modelled".into()),
+        }
+    };
     let mut data = s.content.clone();
-    for f in filters {
+    for (f, p) in filters.iter().zip(parms) {
         data = match f.as_slice() {
-            b"FlateDecode" => unzlib(&data)?,
+            b"FlateDecode" => unpredict(unzlib(&data)?, p)?,
+            b"LZWDecode" => unpredict(unlzw(&data, parm_int(p, b"EarlyChange", 1)?)?, p)?,
             b"ASCII85Decode" => a85_decode(&data)?,
             _ => return Err("filter not modelled".into()),
         };
@@ -340,11 +472,11 @@ fn page_content(d: &Document, page: Id, deps: &mut BTreeSet<Id>) -> Result<Vec<V
     let pd = match dict_of(d, page) { Some(x) => x, None => return Err("page is not a dictionary".into()) };
     let c = match pd.get(b"Contents") { Ok(c) => c, Err(_) => return Ok(vec![]) };
     match deref_ids(d, c, deps) {
-        Some(Object::Stream(s)) => Ok(vec![decode_stream(s)?]),
+        Some(Object::Stream(s)) => Ok(vec![decode_stream(s).map_err(|e| format!("{} (the content stream is stored with {})", e, stored_as(s)))?]),
         Some(Object::Array(a)) => {
             let mut out = vec![];
             for e in a {
-                if let Some(Object::Stream(s)) = deref_ids(d, e, deps) { out.push(decode_stream(s)?); }
+                if let Some(Object::Stream(s)) = deref_ids(d, e, deps) { out.push(decode_stream(s).map_err(|e| format!("{} (the content stream is stored with {})", e, stored_as(s)))?); }
             }
             Ok(out)
         }
@@ -484,6 +616,23 @@ fn new_doc(version: &str, xref_stream: bool, objs: Vec<(Id, Object)>, root: Id, 
 fn z(n: u32) -> Id { (n, 0) }
 
 fn cat(a: &[u8], b: &[u8]) -> Vec<u8> { let mut v = a.to_vec(); if !v.is_empty() { v.push(b'\n'); } v.extend_from_slice(b); v }   // two streams of one page are read with a line feed between them
+
+/// reference encoders for building start documents (the observers above never use them)
+fn zlib_ref(data: &[u8]) -> Vec<u8> {
+    use std::io::Write as _;
+    let mut e = flate2::write::ZlibEncoder::new(Vec::new(), flate2::Compression::new(6));
+    e.write_all(data).expect("seed zlib");
+    e.finish().expect("seed zlib")
+}
+fn lzw_ref(data: &[u8], early: bool) -> Vec<u8> {
+    let mut enc = if early { weezl::encode::Encoder::with_tiff_size_switch(weezl::BitOrder::Msb, 8) } else { weezl::encode::Encoder::new(weezl::BitOrder::Msb, 8) };
+    enc.encode(data).expect("seed lzw")
+}
+/// content padded with line feeds (white space between tokens) to whole rows of `row` bytes
+fn fit(content: &[u8], row: usize) -> Vec<u8> { let mut v = content.to_vec(); while v.len() % row != 0 { v.push(b'\n'); } v }
+
+/// the seed whose call sequences stop at length 2 in both tiers (each of its steps reads three LZW streams through the library)
+const SHALLOW: &str = "parms-lzw";
 
 fn seeds() -> Vec<Seed> {
     let mut out = vec![];
@@ -679,6 +828,70 @@ fn seeds() -> Vec<Seed> {
             bookmarks: vec![],
         });
     }
+    // S8 stored forms with decode parameters (ISO 32000-1 7.4.4.3-4), FlateDecode: the only stream of a page with PNG predictor 12
+    // (140 bytes of data), an array of one stream with predictor 15, three colour components and all five row filter types, and an
+    // array of three: ASCII85+Flate with DecodeParms as an array [null, predictor 11], the no-op predictor 1 under a filter array of
+    // one, predictor 13
+    {
+        let c3 = fit(&long(b'D'), 14);
+        let c4 = fit(&cat(&cat(C_B, C_C), C_B), 15);
+        let (c5a, c5b, c5c) = (fit(C_A_NL, 11), fit(C_C, 9), fit(C_B, 13));
+        let s6 = strm(vec![("Filter", nm("FlateDecode")), ("DecodeParms", dobj(vec![("Predictor", int(12)), ("Columns", int(14))]))], &zlib_ref(&png_predict(&c3, 1, 14, |_| 2)));
+        let s7 = strm(vec![("Filter", nm("FlateDecode")), ("DecodeParms", dobj(vec![("Predictor", int(15)), ("Colors", int(3)), ("Columns", int(5))]))], &zlib_ref(&png_predict(&c4, 3, 15, |r| (r % 5) as u8)));
+        let s8 = strm(vec![("Filter", arr(vec![nm("ASCII85Decode"), nm("FlateDecode")])), ("DecodeParms", arr(vec![Object::Null, dobj(vec![("Predictor", int(11)), ("Columns", int(11))])]))], &a85_encode(&zlib_ref(&png_predict(&c5a, 1, 11, |_| 1))));
+        let s9 = strm(vec![("Filter", arr(vec![nm("FlateDecode")])), ("DecodeParms", dobj(vec![("Predictor", int(1)), ("Columns", int(9))]))], &zlib_ref(&c5b));
+        let s10 = strm(vec![("Filter", nm("FlateDecode")), ("DecodeParms", dobj(vec![("Predictor", int(13)), ("Columns", int(13))]))], &zlib_ref(&png_predict(&c5c, 1, 13, |_| 3)));
+        let objs = vec![
+            (z(1), dobj(vec![("Type", nm("Catalog")), ("Pages", rf(2))])),
+            (z(2), dobj(vec![("Type", nm("Pages")), ("Kids", arr(vec![rf(3), rf(4), rf(5)])), ("Count", int(3)), ("Resources", dobj(vec![("Font", dobj(vec![("F1", rf(20))])), ("XObject", dobj(vec![("Im0", rf(32))]))]))])),
+            (z(3), page(2, vec![("Contents", rf(6))])),
+            (z(4), page(2, vec![("Contents", arr(vec![rf(7)]))])),
+            (z(5), page(2, vec![("Contents", arr(vec![rf(8), rf(9), rf(10)]))])),
+            (z(6), s6),
+            (z(7), s7),
+            (z(8), s8),
+            (z(9), s9),
+            (z(10), s10),
+            (z(20), font()),
+            (z(32), image()),
+        ];
+        let r = rs(&[("Font", "F1"), ("XObject", "Im0")]);
+        out.push(Seed {
+            name: "parms", doc: new_doc("1.5", false, objs, z(1), None, 0),
+            pages: vec![PageExp { id: z(3), content: c3, res: r.clone() }, PageExp { id: z(4), content: c4, res: r.clone() }, PageExp { id: z(5), content: cat(&cat(&c5a, &c5b), &c5c), res: r }],
+            del: vec![z(6), z(9)], rep: vec![z(7)], ann: vec![], res_target: z(32),
+            bookmarks: vec![],
+        });
+    }
+    // S9 the same dimension under LZWDecode, the other filter that takes a predictor: the only stream of a page with predictor 15,
+    // three colour components and all five row filter types (150 bytes of data); an array of two: EarlyChange 0 with predictor 14,
+    // and LZW without parameters.  Reading one LZW stream costs the library about a millisecond (its decoder clears a 16 MiB
+    // buffer per call), so this seed is explored to length 2 in both tiers (see SHALLOW)
+    {
+        let c3 = fit(&cat(&cat(&cat(C_B, C_C), &cat(C_A, C_B)), &cat(C_C, C_B)), 15);
+        let (c4a, c4b) = (fit(C_C, 7), C_A.to_vec());
+        let s6 = strm(vec![("Filter", nm("LZWDecode")), ("DecodeParms", dobj(vec![("Predictor", int(15)), ("Colors", int(3)), ("Columns", int(5))]))], &lzw_ref(&png_predict(&c3, 3, 15, |r| (r % 5) as u8), true));
+        let s7 = strm(vec![("Filter", nm("LZWDecode")), ("DecodeParms", dobj(vec![("EarlyChange", int(0)), ("Predictor", int(14)), ("Columns", int(7))]))], &lzw_ref(&png_predict(&c4a, 1, 7, |_| 4), false));
+        let s8 = strm(vec![("Filter", nm("LZWDecode"))], &lzw_ref(&c4b, true));
+        let objs = vec![
+            (z(1), dobj(vec![("Type", nm("Catalog")), ("Pages", rf(2))])),
+            (z(2), dobj(vec![("Type", nm("Pages")), ("Kids", arr(vec![rf(3), rf(4)])), ("Count", int(2)), ("Resources", dobj(vec![("Font", dobj(vec![("F1", rf(20))])), ("XObject", dobj(vec![("Im0", rf(32))]))]))])),
+            (z(3), page(2, vec![("Contents", rf(6))])),
+            (z(4), page(2, vec![("Contents", arr(vec![rf(7), rf(8)]))])),
+            (z(6), s6),
+            (z(7), s7),
+            (z(8), s8),
+            (z(20), font()),
+            (z(32), image()),
+        ];
+        let r = rs(&[("Font", "F1"), ("XObject", "Im0")]);
+        out.push(Seed {
+            name: SHALLOW, doc: new_doc("1.4", false, objs, z(1), None, 0),
+            pages: vec![PageExp { id: z(3), content: c3, res: r.clone() }, PageExp { id: z(4), content: cat(&c4a, &c4b), res: r }],
+            del: vec![z(6), z(7)], rep: vec![z(8)], ann: vec![], res_target: z(32),
+            bookmarks: vec![],
+        });
+    }
     out
 }
 
@@ -724,7 +937,7 @@ fn ops_for(s: &Seed) -> Vec<Op> {
     if np >= 3 { v.push(Op::DeletePages(vec![3, 1])); }
     v.extend([Op::Renumber, Op::RenumberWith(4), Op::Compress, Op::Decompress]);
     for p in 1..=np { v.push(Op::ChangeContent(p, 0)); }
-    v.push(Op::ChangeContent(1, 1));
+    for p in 1..=np { v.push(Op::ChangeContent(p, 1)); }
     v.push(Op::ChangeContent(9, 0));
     for p in 1..=np { v.push(Op::AddContents(p, 0)); }
     v.push(Op::AddContents(1, 1));
@@ -1143,7 +1356,7 @@ fn step(pre: &State, op: &Op) -> StepResult {
                 let ok = matches!(&out, Out::Res(Ok(())));
                 if let (Ok(before), Some(qp)) = (&pp.content, post_page(page)) {
                     match &qp.content {
-                        Err(e) => fails.push(("page-content".into(), format!("content of page {:?} cannot be decoded after {:?}: {}", page, op, e))),
+                        Err(e) => fails.push(("page-content".into(), format!("content of page {:?} cannot be decoded after {:?} -> {}: {}; before the call the page decoded to {:?} ({} bytes), so the stream dictionary (Filter, DecodeParms) no longer describes the stored bytes", page, op, res_str(&out), e, show(before), before.len()))),
                         Ok(after) => {
                             let verdict: Result<(), String> = if !ok {
                                 if after == before { Ok(()) } else { Err(format!("the call returned {:?} but the content changed", res_str(&out))) }
@@ -1500,13 +1713,16 @@ pub fn run(thorough: bool) -> Report {
     let nops: Vec<usize> = all.iter().map(|s| ops_for(s).len()).collect();
     let bound = format!(
         "{}all call sequences of length 1..={} over a per-seed alphabet of {}..{} concrete calls (new_object_id; add_object x2; renumber_objects; renumber_objects_with(4); new_object_id+set_object; set_object above max_id; set_object on 1-3 existing ids; \
-delete_object on 3-7 ids incl. content streams, shared/duplicated entries, resource dictionaries, pages, the catalog, trailer- and stream-dictionary-referenced, unreachable and absent ids; remove_object on 0-3 ids; prune_objects; \
-delete_pages [1],[2],[1,2],[1,1],[0,9],[3,1]; renumber_objects; compress; decompress; change_page_content / add_page_contents per page with short and compressible data and on an absent page; add_to_page_content; \
+delete_object on 2-7 ids incl. content streams, shared/duplicated entries, resource dictionaries, pages, the catalog, trailer- and stream-dictionary-referenced, unreachable and absent ids; remove_object on 0-3 ids; prune_objects; \
+delete_pages [1],[2],[1,2],[1,1],[0,9],[3,1]; renumber_objects; compress; decompress; change_page_content per page with short data (stored plain) and with compressible data (the library compresses it again) and on an absent page; add_page_contents per page with short data, on page 1 with compressible data, and on an absent page; add_to_page_content; \
 add_xobject / add_graphics_state per page with new and existing names and on an absent page; insert_image, insert_form_object per page; add_bookmark x2; build_outline; save_to + reload) \
-on 8 seed documents of 8-18 objects (flat, nested and three-level page trees with Resources on two ancestors, sparse/high ids, generation 2, max_id slack, inherited/own/shared/indirect resources, Contents as reference/array/empty array/reference to array/absent, \
-Flate/ASCII85/empty-filter-array/DCT/indirect-Length streams, duplicate and shared annotations, Annots absent/direct/indirect, dangling and cyclic references, unreachable objects, registered bookmarks), \
+on 10 seed documents of 8-18 objects (flat, nested and three-level page trees with Resources on two ancestors, sparse/high ids, generation 2, max_id slack, inherited/own/shared/indirect resources, Contents as reference/array/empty array/reference to array/absent, \
+Flate/ASCII85/empty-filter-array/DCT/indirect-Length streams, content streams stored with decode parameters (seed 'parms': FlateDecode with /DecodeParms /Predictor 1, 11, 12, 13 and 15, PNG rows of all five filter types, Colors 1 and 3, Columns 5-14, \
+DecodeParms as one dictionary and as an array [null, dictionary] parallel to an ASCII85+Flate chain, as the only stream of a page with 140 bytes of data, in a Contents array of one and of three; \
+seed 'parms-lzw': LZWDecode with /Predictor 14 and 15, EarlyChange 0 and 1 and without parameters, as the only stream of a page with 135 bytes of data and in an array of two; this one seed with sequences of length 1..=2 only in both tiers), \
+duplicate and shared annotations, Annots absent/direct/indirect, dangling and cyclic references, unreachable objects, registered bookmarks), \
 each seed once as generated and once as loaded from its own saved file; every step of every sequence checked against the pre-state; structures are small and acyclic in depth, so no call can recurse unboundedly (no child process used)",
-        if thorough { "all call sequences of length 4 over a reduced alphabet of 20-21 calls (one concrete call per editing function, without set_object above max_id), and " } else { "" },
+        if thorough { "all call sequences of length 4 over a reduced alphabet of 20-21 calls (one concrete call per editing function, without set_object above max_id; not for seed 'parms-lzw'), and " } else { "" },
         depth, nops.iter().min().unwrap(), nops.iter().max().unwrap());
     let mut rep = Report::new(&bound, true);
     let prev = std::panic::take_hook();
@@ -1536,7 +1752,7 @@ each seed once as generated and once as loaded from its own saved file; every st
     let mut tasks: Vec<(usize, usize, bool, usize, bool)> = vec![];
     for (k, (si, loaded)) in starts.iter().enumerate() {
         for i in 0..opsets[*si].len() { tasks.push((k, *si, *loaded, i, false)); }
-        if thorough { for i in 0..coresets[*si].len() { tasks.push((k, *si, *loaded, i, true)); } }
+        if thorough && all[*si].name != SHALLOW { for i in 0..coresets[*si].len() { tasks.push((k, *si, *loaded, i, true)); } }
     }
     let locals: Vec<Local> = tasks.par_iter().map(|(k, si, loaded, i, long_phase)| {
         let mut loc = Local::default();
@@ -1550,7 +1766,7 @@ each seed once as generated and once as loaded from its own saved file; every st
                     node(&st, *i, LONG, &mut path, 0, &ctx, &mut loc);
                 } else {
                     let ctx = Ctx { seed: s, loaded: *loaded, start_index: *k, ops: &opsets[*si], docj: &docjs[*si], count_from: 1 };
-                    node(&st, *i, depth, &mut path, 0, &ctx, &mut loc);
+                    node(&st, *i, if s.name == SHALLOW { 2 } else { depth }, &mut path, 0, &ctx, &mut loc);
                 }
             }
             Err(e) => loc.add("seed-start", e, (0, 0, *k, vec![]), || json!({"seed_check": s.name, "loaded": loaded})),
